@@ -6,6 +6,7 @@ CONSTANTS
   MaxRerun = 0
   Own = {"C01","C02","C03","C04","C07","C15","C18","C19"}
   KnownSigs = {"KF_C07_late_arrival_after_fire"}
+  Deviations <- AsCode
 INVARIANT NoViolation
 VIEW View
 CHECK_DEADLOCK FALSE
